@@ -35,7 +35,7 @@ def BURST(test):
 
 
 PROPS = {
-    "C01": {"level": "exploration", "assumptions": SIM_ASSUME, "parts": [sim("TestC01")]},
+    "C01": {"level": "exploration", "assumptions": SIM_ASSUME, "parts": [sim("TestC01"), BURST("TestC01Burst")]},
     "C02": {"level": "exploration", "assumptions": SIM_ASSUME, "parts": [sim("TestC02", q=(300, 4), t=(4000, 16)), sim("TestC02Graphs", q=(600, 4), t=(20000, 16))]},
     "C03": {"level": "exploration", "assumptions": SIM_ASSUME, "parts": [sim("TestC03")]},
     "C04": {"level": "exploration", "assumptions": SIM_ASSUME, "parts": [sim("TestC04"), rp("procs", "TestC04Real", (12, 2), (300, 8), helpers=["cmd/vhelper"])]},
